@@ -162,6 +162,7 @@ def h_registry(sx):
     ctx = Context(runner)
     runner.context = ctx
     obs = []
+    held = []
     for st in ("given", "when", "then"):
         cands = model[st] + model["step"]
         for text in TEXTS:
@@ -181,6 +182,7 @@ def h_registry(sx):
                      detail=dict(det, got=repr(m)))
             if m is None or isinstance(m, MatchWithError) or m.func is not funcs[exp[0]]:
                 continue
+            held.append((m, text, [(a.name, repr(a.value), a.start, a.end) for a in m.arguments]))
             ctx.received = None
             m.run(ctx)
             got = ctx.received
@@ -204,6 +206,11 @@ def h_registry(sx):
             if spans_ok and lits is not None and all(a.original is not None for a in m.arguments):
                 sx.check(gaps == lits, "C11.text-minus-spans==pattern-literals", detail=dict(det, gaps=gaps, literals=lits))
             obs.append([st, text, "f%d" % exp[0]])
+    # a match handed out earlier still describes ITS step after later lookups (matches may be collected first and run later,
+    # e.g. by a before_step hook that executes other steps)
+    for m, text, snap in held:
+        now = [(a.name, repr(a.value), a.start, a.end) for a in m.arguments]
+        sx.check(now == snap, "C11.match-keeps-its-arguments-after-later-lookups", detail={"history": hist, "text": text, "then": snap, "now": now})
     factory.reset()
     return {"history": hist, "bound": len(obs)}
 
